@@ -330,3 +330,27 @@ func namedOfType(t types.Type) *types.Named {
 	n, _ := t.(*types.Named)
 	return n
 }
+
+// snapIndexForms: the ways the latest snapshot index may be read (bare field —
+// which the lockset rule of C15 rejects outside constructors — or the locked accessors).
+func snapIndexForms(prefix string) []string {
+	return []string{prefix + ".snaps.index", "(*snapshots).latestIndex(" + prefix + ".snaps)", "(*snapshots).latest(" + prefix + ".snaps)#0"}
+}
+
+func isSnapIndexExpr(s, prefix string) bool {
+	for _, f := range snapIndexForms(prefix) {
+		if s == f {
+			return true
+		}
+	}
+	return false
+}
+
+// gateSnap: gate on `lhs op <latest snapshot index>` in any of its forms.
+func (h H) gateSnap(rule, construct string, target ssa.Instruction, lhs, op, prefix string) bool {
+	var atoms []core.Atom
+	for _, f := range snapIndexForms(prefix) {
+		atoms = append(atoms, core.MkAtom(lhs, op, f))
+	}
+	return h.gateAny(rule, construct, target, atoms...)
+}
